@@ -719,3 +719,120 @@ package opset13
 //@   ensures defaults: err == nil ==> (old(len(self.strides)) == 0 ==> (forall i :: 0 <= i && i < rank(inputs[0]) - 2 ==> self.strides[i] == 1)) &&
 //@          (old(len(self.dilations)) == 0 ==> (forall i :: 0 <= i && i < rank(inputs[0]) - 2 ==> self.dilations[i] == 1)) &&
 //@          (old(len(self.pads)) == 0 && self.autoPad == "NOTSET" ==> (forall i :: 0 <= i && i < 2 * (rank(inputs[0]) - 2) ==> self.pads[i] == 0))
+
+// ---------------------------------------------------------------------------------------
+// C09: ArgMax, ReduceMax, ReduceMin, Softmax, LogSoftmax act on exactly the requested axes
+// (shapes on success, element type, refusals; the reductions themselves are gorgonia kernels)
+
+//@ func (*ArgMax).Apply
+//@   tags C09,C02
+//@   requires self != nil && len(inputs) == 1 && inputs[0] != nil
+//@   scope extents_positive: dims_positive(inputs[0]) && rank(inputs[0]) >= 1
+//@   modifies opstate(self)
+//@   before Argmax assert axis_normalised: axis == normax(self.axis, rank(inputs[0]))
+//@   ensures axis_out_of_range_refused: self.axis < 0 - rank(inputs[0]) || self.axis >= rank(inputs[0]) ==> err != nil
+//@   ensures int64_indices: err == nil ==> len(result) == 1 && result[0] != nil && fresh(result[0]) && dtype(result[0]) == Int64
+//@   ensures keepdims_shape: err == nil && self.keepDims ==> rank(result[0]) == rank(inputs[0]) && dim(result[0], normax(self.axis, rank(inputs[0]))) == 1 &&
+//@          (forall k :: 0 <= k && k < rank(inputs[0]) && k != normax(self.axis, rank(inputs[0])) ==> dim(result[0], k) == dim(inputs[0], k))
+//@   ensures reduced_shape: err == nil && !self.keepDims ==> rank(result[0]) == rank(inputs[0]) - 1 &&
+//@          (forall k :: 0 <= k && k < normax(self.axis, rank(inputs[0])) ==> dim(result[0], k) == dim(inputs[0], k)) &&
+//@          (forall k :: normax(self.axis, rank(inputs[0])) <= k && k < rank(inputs[0]) - 1 ==> dim(result[0], k) == dim(inputs[0], k + 1))
+//@   loop 1 invariant len(backing2) == len(backing) && fresh(backing2) && reduced != nil
+
+//@ func (*Softmax).Apply
+//@   tags C09,C02
+//@   requires self != nil && len(inputs) == 1 && inputs[0] != nil
+//@   scope extents_positive: dims_positive(inputs[0])
+//@   modifies opstate(self)
+//@   before SoftMax assert axis_normalised: axis == normax(self.axis, rank(inputs[0])) && 0 <= axis && axis < rank(inputs[0])
+//@   ensures axis_out_of_range_refused: self.axis < 0 - rank(inputs[0]) || self.axis >= rank(inputs[0]) ==> err != nil
+//@   ensures same_shape_and_type: err == nil ==> len(result) == 1 && result[0] != nil && fresh(result[0]) && same_shape(result[0], inputs[0]) && dtype(result[0]) == dtype(inputs[0])
+
+//@ func (*LogSoftmax).Apply
+//@   tags C09,C02
+//@   requires self != nil && len(inputs) == 1 && inputs[0] != nil
+//@   scope extents_positive: dims_positive(inputs[0])
+//@   modifies opstate(self)
+//@   before LogSoftMax assert axis_normalised: axis == normax(self.axis, rank(inputs[0])) && 0 <= axis && axis < rank(inputs[0])
+//@   ensures axis_out_of_range_refused: self.axis < 0 - rank(inputs[0]) || self.axis >= rank(inputs[0]) ==> err != nil
+//@   ensures same_shape_and_type: err == nil ==> len(result) == 1 && result[0] != nil && fresh(result[0]) && same_shape(result[0], inputs[0]) && dtype(result[0]) == dtype(inputs[0])
+
+//@ spec reduce_axes_ok(axes []int, r int) bool = len(axes) >= 1 && (forall k :: 0 <= k && k < len(axes) ==> 0 - r <= axes[k] && axes[k] < r) &&
+//@        (forall a :: (forall b :: 0 <= a && a < b && b < len(axes) ==> normax(axes[a], r) != normax(axes[b], r)))
+
+//@ func (*ReduceMax).Apply
+//@   tags C09,C02
+//@   requires self != nil && len(inputs) == 1 && inputs[0] != nil
+//@   scope valid_request: dims_positive(inputs[0]) && rank(inputs[0]) >= 1 && blen(inputs[0]) == nelems(shapeof(inputs[0])) && reduce_axes_ok(self.axes, rank(inputs[0])) && cast_source(dtype(inputs[0]))
+//@   modifies opstate(self)
+//@   before Max assert axes_normalised: forall k :: 0 <= k && k < len(axes) ==> axes[k] == normax(self.axes[k], rank(inputs[0])) && 0 <= axes[k] && axes[k] < rank(inputs[0])
+//@   before Max assert axes_distinct: forall a :: (forall b :: 0 <= a && a < b && b < len(axes) ==> axes[a] != axes[b])
+//@   before Max assert same_set: forall x ::
+//@          (membext(arr(axes), off(axes), len(axes), 0, arr(self.axes), off(self.axes), rank(inputs[0])) || !membext(arr(axes), off(axes), len(axes), 0, arr(self.axes), off(self.axes), rank(inputs[0]))) &&
+//@          (ismemb(axes, 0, x) <==> ismemb(self.axes, rank(inputs[0]), x))
+//@   before Max assert same_count: forall i :: 0 <= i && i <= rank(inputs[0]) ==>
+//@          (nkcong(arr(axes), off(axes), len(axes), 0, arr(self.axes), off(self.axes), len(self.axes), rank(inputs[0]), i) || !nkcong(arr(axes), off(axes), len(axes), 0, arr(self.axes), off(self.axes), len(self.axes), rank(inputs[0]), i)) &&
+//@          nk(axes, 0, i) == nk(self.axes, rank(inputs[0]), i)
+//@   ensures same_type: err == nil ==> len(result) == 1 && result[0] != nil && fresh(result[0]) && dtype(result[0]) == dtype(inputs[0])
+//@   ensures keepdims_shape: err == nil && self.keepDims ==> rank(result[0]) == rank(inputs[0]) &&
+//@          (forall i :: 0 <= i && i < rank(inputs[0]) ==> dim(result[0], i) == ite(ismemb(self.axes, rank(inputs[0]), i), 1, dim(inputs[0], i)))
+//@   ensures reduced_shape: err == nil && !self.keepDims ==> rank(result[0]) == nk(self.axes, rank(inputs[0]), rank(inputs[0])) &&
+//@          (forall i :: 0 <= i && i < rank(inputs[0]) && !ismemb(self.axes, rank(inputs[0]), i) ==> dim(result[0], nk(self.axes, rank(inputs[0]), i)) == dim(inputs[0], i))
+//@   loop 1 invariant len(axes) == len(self.axes) && fresh(axes) && base(axes) != 0 && input != nil && fresh(input) && rank(input) == rank(inputs[0]) &&
+//@          (forall k :: 0 <= k && k < $i ==> axes[k] == normax(self.axes[k], rank(inputs[0])))
+//@   loop 2 invariant out != nil && fresh(out) && len(newShape) == rank(inputs[0]) && base(newShape) != base(axes) && base(newShape) != shaperef(inputs[0]) &&
+//@          (forall k :: 0 <= k && k < len(axes) ==> 0 <= axes[k] && axes[k] < rank(inputs[0]))
+//@   loop 2 invariant forall i :: 0 <= i && i < rank(inputs[0]) ==> newShape[i] == ite(memb(arr(axes), off(axes), $i, 0, i), 1, dim(inputs[0], i))
+//@   before Reshape assert kept_or_one: forall i :: 0 <= i && i < rank(inputs[0]) ==> newShape[i] == ite(ismemb(self.axes, rank(inputs[0]), i), 1, dim(inputs[0], i))
+
+//@ func (*ReduceMin).Apply
+//@   tags C09,C02
+//@   requires self != nil && len(inputs) == 1 && inputs[0] != nil
+//@   scope valid_request: dims_positive(inputs[0]) && rank(inputs[0]) >= 1 && blen(inputs[0]) == nelems(shapeof(inputs[0])) && reduce_axes_ok(self.axes, rank(inputs[0])) && cast_source(dtype(inputs[0]))
+//@   modifies opstate(self)
+//@   before Min assert axes_normalised: forall k :: 0 <= k && k < len(axes) ==> axes[k] == normax(self.axes[k], rank(inputs[0])) && 0 <= axes[k] && axes[k] < rank(inputs[0])
+//@   before Min assert axes_distinct: forall a :: (forall b :: 0 <= a && a < b && b < len(axes) ==> axes[a] != axes[b])
+//@   before Min assert same_set: forall x ::
+//@          (membext(arr(axes), off(axes), len(axes), 0, arr(self.axes), off(self.axes), rank(inputs[0])) || !membext(arr(axes), off(axes), len(axes), 0, arr(self.axes), off(self.axes), rank(inputs[0]))) &&
+//@          (ismemb(axes, 0, x) <==> ismemb(self.axes, rank(inputs[0]), x))
+//@   before Min assert same_count: forall i :: 0 <= i && i <= rank(inputs[0]) ==>
+//@          (nkcong(arr(axes), off(axes), len(axes), 0, arr(self.axes), off(self.axes), len(self.axes), rank(inputs[0]), i) || !nkcong(arr(axes), off(axes), len(axes), 0, arr(self.axes), off(self.axes), len(self.axes), rank(inputs[0]), i)) &&
+//@          nk(axes, 0, i) == nk(self.axes, rank(inputs[0]), i)
+//@   ensures same_type: err == nil ==> len(result) == 1 && result[0] != nil && fresh(result[0]) && dtype(result[0]) == dtype(inputs[0])
+//@   ensures keepdims_shape: err == nil && self.keepDims ==> rank(result[0]) == rank(inputs[0]) &&
+//@          (forall i :: 0 <= i && i < rank(inputs[0]) ==> dim(result[0], i) == ite(ismemb(self.axes, rank(inputs[0]), i), 1, dim(inputs[0], i)))
+//@   ensures reduced_shape: err == nil && !self.keepDims ==> rank(result[0]) == nk(self.axes, rank(inputs[0]), rank(inputs[0])) &&
+//@          (forall i :: 0 <= i && i < rank(inputs[0]) && !ismemb(self.axes, rank(inputs[0]), i) ==> dim(result[0], nk(self.axes, rank(inputs[0]), i)) == dim(inputs[0], i))
+//@   loop 1 invariant len(axes) == len(self.axes) && fresh(axes) && base(axes) != 0 && input != nil && fresh(input) && rank(input) == rank(inputs[0]) &&
+//@          (forall k :: 0 <= k && k < $i ==> axes[k] == normax(self.axes[k], rank(inputs[0])))
+//@   loop 2 invariant out != nil && fresh(out) && len(newShape) == rank(inputs[0]) && base(newShape) != base(axes) && base(newShape) != shaperef(inputs[0]) &&
+//@          (forall k :: 0 <= k && k < len(axes) ==> 0 <= axes[k] && axes[k] < rank(inputs[0]))
+//@   loop 2 invariant forall i :: 0 <= i && i < rank(inputs[0]) ==> newShape[i] == ite(memb(arr(axes), off(axes), $i, 0, i), 1, dim(inputs[0], i))
+//@   before Reshape assert kept_or_one: forall i :: 0 <= i && i < rank(inputs[0]) ==> newShape[i] == ite(ismemb(self.axes, rank(inputs[0]), i), 1, dim(inputs[0], i))
+
+//@ func (*ArgMax).Init
+//@   tags C09,C02
+//@   requires self != nil && n != nil
+//@   scope attributes_present: forall k :: 0 <= k && k < len(n.Attribute) ==> n.Attribute[k] != nil
+//@   modifies opstate(self)
+//@   ensures unknown_attribute_refused: (exists k :: 0 <= k && k < len(n.Attribute) && n.Attribute[k].Name != "axis" && n.Attribute[k].Name != "keepdims" && n.Attribute[k].Name != "select_last_index") ==> err != nil
+//@   ensures select_last_index_refused: (exists k :: 0 <= k && k < len(n.Attribute) && n.Attribute[k].Name == "select_last_index" && n.Attribute[k].I != 0) ==> err != nil
+//@   loop 1 invariant forall k :: 0 <= k && k < $i ==> (n.Attribute[k].Name == "axis" || n.Attribute[k].Name == "keepdims" || (n.Attribute[k].Name == "select_last_index" && n.Attribute[k].I == 0))
+
+//@ func (*ReduceMax).Init
+//@   tags C09,C02
+//@   requires self != nil && n != nil
+//@   scope attributes_present: forall k :: 0 <= k && k < len(n.Attribute) ==> n.Attribute[k] != nil
+//@   modifies opstate(self)
+//@   ensures no_axes_means_all_axes: len(n.Attribute) == 0 ==> err == nil
+//@   ensures unknown_attribute_refused: (exists k :: 0 <= k && k < len(n.Attribute) && n.Attribute[k].Name != "axes" && n.Attribute[k].Name != "keepdims") ==> err != nil
+//@   loop 1 invariant forall k :: 0 <= k && k < $i ==> (n.Attribute[k].Name == "axes" || n.Attribute[k].Name == "keepdims")
+
+//@ func (*ReduceMin).Init
+//@   tags C09,C02
+//@   requires self != nil && n != nil
+//@   scope attributes_present: forall k :: 0 <= k && k < len(n.Attribute) ==> n.Attribute[k] != nil
+//@   modifies opstate(self)
+//@   ensures no_axes_means_all_axes: len(n.Attribute) == 0 ==> err == nil
+//@   ensures unknown_attribute_refused: (exists k :: 0 <= k && k < len(n.Attribute) && n.Attribute[k].Name != "axes" && n.Attribute[k].Name != "keepdims") ==> err != nil
+//@   loop 1 invariant forall k :: 0 <= k && k < $i ==> (n.Attribute[k].Name == "axes" || n.Attribute[k].Name == "keepdims")
